@@ -945,6 +945,15 @@ class CanonInterp(Interp):
         return e["t"] == "Index" and strip_paren(e["expr"])["t"] == "Field" and strip_paren(e["expr"])["member"] == "insts" and path_name(strip_paren(e["index"])) == self.loop_var
 
     def assign_place(self, place, value, env, node):
+        pl = strip_paren(place)
+        if pl["t"] == "Unary" and pl["op"] == "*" and strip_paren(pl["expr"])["t"] == "PathExpr":
+            nm = strip_paren(pl["expr"])["path"]["name"]
+            if env.has(nm) and isinstance(env.get(nm), tuple) and env.get(nm)[:1] == ("slotref",):
+                # `*inst = ..` through the loop's mutable reference to the instruction
+                if not isinstance(value, InstrV):
+                    raise Unanalysable("assignment of a non-instruction through the instruction reference")
+                env.get(nm)[1].instr = value
+                return
         if self._is_slot(place):
             if not isinstance(value, InstrV):
                 raise Unanalysable("assignment of a non-instruction to self.insts[i]")
@@ -1051,6 +1060,8 @@ class CanonInterp(Interp):
 
     def unary(self, op, v, node):
         if op == "*":
+            if isinstance(v, tuple) and v[:1] == ("slotref",):
+                return v[1].instr
             return v.get() if isinstance(v, LocRef) else v
         return super().unary(op, v, node)
 
@@ -1095,7 +1106,13 @@ def computed_canonical(ast):
                         it.loop_var = loops[0]["pat"]["name"] if loops[0]["pat"]["t"] == "PIdent" else "i"
                         env = Env()
                         env.bind("self", "self")
-                        env.bind(it.loop_var, Opaque("i"))
+                        by_ref = any(m_["method"] == "iter_mut" for m_ in walk_t(loops[0]["expr"], "MethodCall"))
+                        if by_ref:
+                            # `for inst in self.insts.iter_mut()..`: the loop variable is a mutable reference to the instruction
+                            env.bind(it.loop_var, ("slotref", slot))
+                            it.loop_var = "\0none"
+                        else:
+                            env.bind(it.loop_var, Opaque("i"))
                         it.exec_block(body, env)
                         n += 1
                         ins = slot.instr
